@@ -2,5 +2,6 @@ SPECIFICATION Spec
 CONSTANTS MaxObs = 4
           MaxSrc = 3
           Times = {1, 2, 3}
+          Deviations = {}
           Export = FALSE
 INVARIANT AlgSatisfiesProperty
